@@ -220,6 +220,9 @@ def make_case(seed, i, force_end=None):
             opts.append("drop_self_version" if state.self_version else "self_version")
             # the set of referenced packages changes while watching
             opts += ["add_import", "add_import"]
+            # a release: the present state of the package is copied aside and listed as a previous version (later saves may go there)
+            if len(state.versions) < 3:
+                opts += ["add_version", "add_version"]
             if added_imports:
                 opts.append("remove_import")
             op = r.choice(opts)
@@ -248,6 +251,14 @@ def make_case(seed, i, force_end=None):
                 state.self_version = "snapshot"
             elif op == "drop_self_version":
                 state.self_version = ""
+            elif op == "add_version":
+                snap = copy.deepcopy(state)
+                snap.versions, snap.targets, snap.self_version = [], {}, ""
+                k = sum(1 for l, _ in state.versions if l.startswith("rel")) + 1 + e * 10
+                snap.dirname = "%s_rel%d" % (state.dirname, k)
+                state.versions.append(("rel%d" % k, snap))
+                kinds_main = E.COMPATIBLE + E.PARTIAL
+                op = "add_version rel%d (%s)" % (k, snap.dirname)
             elif op == "drop_versions":
                 state.versions = []
                 kinds_main = E.COMPATIBLE + E.PARTIAL + E.FREE
